@@ -241,6 +241,12 @@ def check_day(ctx, day, walk, rng, heavy, mq_all):
             seq = dt_bump(seq, p)
         if seq != exp:
             ctx.fail('compound_left_to_right', "sequential application of %s from %s = %s, oracle %s" % (parts, t, seq, exp), case=dict(term, tenor=tenor))
+    from pyg_base import dt
+    for tenor_ in ('%db' % rng.randint(-60, 60), '%dm' % rng.randint(-24, 24), '1y-3m2d', rng.randint(-60, 60)):
+        mon['dt_with_bump'] += 1
+        a_, b_ = dt(t, tenor_), dt_bump(t, tenor_)
+        if a_ != b_:
+            ctx.fail('dt_with_bump', 'dt(%s, %r) = %s but dt_bump gives %s' % (t, tenor_, a_, b_), case=dict(term, tenor=str(tenor_)))
     named = {'spot': 0, 'on': 1, 'o/n': 1, 'tn': 2, 't/n': 2, 'sn': 3, 's/n': 3}
     k = rng.choice(list(named))
     mon['named_tenors'] += 1
